@@ -275,8 +275,21 @@ def same(a, b):
         return False
 
 
+def _shape(v):
+    t = type(v)
+    if t is tuple:
+        return ("t", len(v))
+    if t is Iface:
+        return ("i", v.t)
+    if t is Closure:
+        return ("c", v.fn, len(v.fv))
+    return None
+
+
 def mk_union(alts):
-    """flatten, drop false guards, combine equal values"""
+    """flatten, drop false guards, combine equal values; alternatives of equal shape (tuples of one
+    length, interface values of one dynamic type, closures of one function) are merged into one
+    alternative with merged components, so a union has at most one alternative per shape"""
     flat = []
     for g, v in alts:
         g = _norm(g)
@@ -290,9 +303,20 @@ def mk_union(alts):
         else:
             flat.append((g, v))
     out = []
+    shapes = {}
     for g, v in flat:
+        sh = _shape(v)
+        if sh is not None:
+            i = shapes.get(sh)
+            if i is None:
+                shapes[sh] = len(out)
+                out.append((g, v))
+            else:
+                g0, v0 = out[i]
+                out[i] = (OR(g0, g), v0 if v0 is v else _merge(g, v, v0))
+            continue
         for i, (g0, v0) in enumerate(out):
-            if same(v0, v):
+            if _shape(v0) is None and same(v0, v):
                 out[i] = (OR(g0, g), v0)
                 break
         else:
@@ -322,29 +346,72 @@ def mk_union(alts):
 
 
 def merge(g, a, b):
-    """value that equals a when g holds and b otherwise"""
+    """value that equals a when g holds and b otherwise (single pass; keeps object identity when possible)"""
     g = _norm(g)
     if g is True:
         return a
     if g is False:
         return b
-    if same(a, b):
+    return _merge(g, a, b)
+
+
+def _merge(g, a, b):
+    if a is b:
         return a
     ta, tb = type(a), type(b)
     if ta is tuple and tb is tuple and len(a) == len(b):
-        return tuple(merge(g, x, y) for x, y in zip(a, b))
+        out = None
+        for i in range(len(a)):
+            x, y = a[i], b[i]
+            if x is y:
+                r = x
+            else:
+                r = _merge(g, x, y)
+            if out is not None:
+                out.append(r)
+            elif r is not x:
+                out = list(a[:i])
+                out.append(r)
+        return a if out is None else tuple(out)
+    if ta is Union or tb is Union:
+        return mk_union([(g, a), (NOT(g), b)])
+    za, zb = isinstance(a, z3.ExprRef), isinstance(b, z3.ExprRef)
+    if za or zb:
+        if za and zb:
+            if a.eq(b):
+                return a
+            if a.sort() == b.sort():
+                if z3.is_bool(a):
+                    return ITE_B(g, a, b)
+                return z3.If(g, a, b)
+            return mk_union([(g, a), (NOT(g), b)])
+        if za:
+            if z3.is_bool(a) and tb is bool:
+                return ITE_B(g, a, b)
+            if z3.is_bv(a) and tb is int:
+                return z3.If(g, a, z3.BitVecVal(b, a.size()))
+        else:
+            if z3.is_bool(b) and ta is bool:
+                return ITE_B(g, a, b)
+            if z3.is_bv(b) and ta is int:
+                return z3.If(g, z3.BitVecVal(a, b.size()), b)
+        return mk_union([(g, a), (NOT(g), b)])
+    if ta is bool and tb is bool:
+        if a == b:
+            return a
+        return g if a else NOT(g)
     if ta is Iface and tb is Iface and a.t == b.t:
-        return Iface(a.t, merge(g, a.v, b.v))
+        v = _merge(g, a.v, b.v)
+        return a if v is a.v else Iface(a.t, v)
     if ta is Closure and tb is Closure and a.fn == b.fn and len(a.fv) == len(b.fv):
-        return Closure(a.fn, tuple(merge(g, x, y) for x, y in zip(a.fv, b.fv)))
-    if (is_bool_conc(a) or (is_z3(a) and z3.is_bool(a))) and (is_bool_conc(b) or (is_z3(b) and z3.is_bool(b))):
-        return ITE_B(g, a, b)
-    if is_z3(a) and z3.is_bv(a) and is_int_conc(b):
-        return z3.If(g, a, z3.BitVecVal(b, a.size()))
-    if is_z3(b) and z3.is_bv(b) and is_int_conc(a):
-        return z3.If(g, z3.BitVecVal(a, b.size()), b)
-    if is_z3(a) and is_z3(b) and a.sort() == b.sort():
-        return z3.If(g, a, b)
+        fv = _merge(g, a.fv, b.fv)
+        return a if fv is a.fv else Closure(a.fn, fv)
+    if ta is tb and ta is not tuple:
+        try:
+            if a == b:
+                return a
+        except Exception:
+            pass
     return mk_union([(g, a), (NOT(g), b)])
 
 
